@@ -56,6 +56,8 @@ def s_parse_random(rng):
 def triples_string(rng):
     g = gen.decode_graph(rng) or Graph([('a', ':instance', 'b')])
     ts = [t for t in g.triples]
+    if maybe(rng, 0.15):
+        ts = [(s, rng.choice([':^up', ':^', ':a^b', r]), t) for s, r, t in ts]
     if maybe(rng, 0.5):
         ts = [(s, r, (t if t is not None else 'x')) for s, r, t in ts]
     s = penman.format_triples(ts, indent=maybe(rng, 0.5))
